@@ -1306,3 +1306,26 @@ func outerLoop(fd *ast.FuncDecl) ast.Stmt {
 	})
 	return found
 }
+
+// BodyLoopSegmentPaths is LoopSegmentPaths for a loop inside a function literal (closure) of fd.
+func (p *GoProg) BodyLoopSegmentPaths(fd *ast.FuncDecl, body *ast.BlockStmt, loop ast.Stmt, limit int) []*SymPath {
+	fg := p.NewFG(p.CFGOf(body))
+	head := fg.LoopHead(loop)
+	if head < 0 {
+		return nil
+	}
+	paths, ok := fg.EnumSegment(head, 0, map[int]bool{head: true}, limit)
+	if !ok {
+		return nil
+	}
+	var out []*SymPath
+	for _, pa := range paths {
+		env := p.NewFuncEnv(fd)
+		sp := p.ExecPath(pa, env)
+		if pa.Exit != nil && int(pa.Exit.Index) == head && len(pa.Exit.Succs) > 0 {
+			sp.Continues = true
+		}
+		out = append(out, sp)
+	}
+	return out
+}
